@@ -14,4 +14,8 @@ def run():
     c.engine = Engine()
     c.deductive(sorted(set(DEDUCTIVE + _pipeline.fix_bases(c.engine))))
     _pipeline.pipeline_part(c, "C01")
+    if c.tier == "thorough":
+        from pyvc.checklib import run_selftest
+
+        run_selftest(c, ["mutants_fixes.py"], lambda eng: _pipeline.fix_bases(eng) + ["vsg.rules.token_indent.token_indent._analyze", "vsg.rules.whitespace_between_tokens.Rule._analyze", "vsg.rules.whitespace_between_tokens.Rule.create_violation"])
     return c.finish({"explanation": META["text"]})
